@@ -286,6 +286,7 @@ func (t *UpdateTran) Commit() {
 func (t *UpdateTran) commit() int {
 	t.db.UpdateState(func(state *DbState) {
 		state.Meta = t.meta.LayeredOnto(state.Meta)
+		verifPoint("commit.apply", t)
 	})
 	return t.num()
 }
